@@ -540,7 +540,8 @@ theorem set_then_wait_visible {cfg : Cfg} {k : Hash} {c : Conf} {v : Val} {exp :
     (hcalm : ∀ as1 as2 s, acts = as1 ++ as2 → run cfg (stSetSend cfg s0 t N) as1 = some s → Calm k s)
     (httl : exp = Gen.zeroTime ∨ s2.clock < exp) (hconf : ConfAgree k s2.log)
     (hlog : s2.log = new ++ (stSetSend cfg s0 t N).log) (hwait : WaitCycle new) :
-    s2.store.lookup k = some ⟨c, v, exp⟩ ∧ NoItemK k (pending s2) := by
+    (s2.store.lookup k = some ⟨c, v, exp⟩ ∧ NoItemK k (pending s2)) ∧
+    NoSetK k s2 ∧ NoDelK k s2 ∧ NoClr s2 ∧ s2.closed = false := by
   have hstep : step cfg s0 (.client t .none) = some (stSetSend cfg s0 t N) := by
     simp [step, clientStep, hpc, needNone]
   have h1 : Reach cfg (stSetSend cfg s0 t N) := h0.of_step hstep
@@ -589,10 +590,10 @@ theorem set_then_wait_visible {cfg : Cfg} {k : Hash} {c : Conf} {v : Val} {exp :
       exact ⟨evs ++ new', by rw [hl2, hl]; simp,
         ⟨noSetK_step hq a1 ha.1 hs, noDelK_step hq a2 ha.2.1 hs, noClr_step hq a3 ha.2.2 hs, open_step a3 a4 hs⟩,
         hv.step hh hcalm' hs hal⟩
-  obtain ⟨new', hl', _, hv⟩ := key
+  obtain ⟨new', hl', hh, hv⟩ := key
   have : new' = new := by rw [hlog] at hl'; exact (List.append_cancel_right hl').symm
   subst this
-  exact hv.w5 hwait
+  exact ⟨hv.w5 hwait, hh.nos, hh.nod, hh.noc, hh.opn⟩
 
 /-- With room to spare the policy's answer is forced: a new key is admitted, nobody is evicted;
 an accounted key is only re-costed. -/
@@ -626,5 +627,60 @@ theorem polAdd_room {on : Bool} {p : Pol} {m : Met} {k : Hash} {cost : Int} {vs 
       · simp at h
     · rename_i heq
       rw [heq] at hu; cases hu
+
+/-! ### checking a state predicate along a concrete run -/
+
+/-- `p` holds in every state of the run (decidable, for concrete runs) -/
+def runAllB (cfg : Cfg) (p : State → Bool) : State → List Action → Bool
+  | s, [] => p s
+  | s, a :: as => p s && match step cfg s a with
+    | none => true
+    | some s' => runAllB cfg p s' as
+
+theorem runAllB_spec {cfg : Cfg} {p : State → Bool} {s : State} {acts : List Action}
+    (h : runAllB cfg p s acts = true) :
+    ∀ as1 as2 s1, acts = as1 ++ as2 → run cfg s as1 = some s1 → p s1 = true := by
+  induction acts generalizing s with
+  | nil =>
+    intro as1 as2 s1 hsplit hr
+    have : as1 = [] := by
+      cases as1 with
+      | nil => rfl
+      | cons x r => simp at hsplit
+    subst this
+    simp [Cache.run] at hr; subst hr; exact h
+  | cons a as ih =>
+    intro as1 as2 s1 hsplit hr
+    simp only [runAllB, Bool.and_eq_true] at h
+    cases as1 with
+    | nil => simp [Cache.run] at hr; subst hr; exact h.1
+    | cons x r =>
+      simp only [List.cons_append, List.cons.injEq] at hsplit
+      obtain ⟨rfl, hsplit⟩ := hsplit
+      simp only [Cache.run] at hr
+      cases hs : step cfg s a with
+      | none => simp [hs] at hr
+      | some s' =>
+        simp only [hs] at hr
+        have h2 := h.2
+        simp only [hs] at h2
+        exact ih h2 r as2 s1 hsplit hr
+
+/-- decidable form of `Calm` -/
+def calmB (k : Hash) (s : State) : Bool :=
+  match s.app with
+  | .added i _ ok => !(i.key == k) || ok
+  | .victims ((h, _) :: _) => !(h == k)
+  | _ => true
+
+theorem calm_of_calmB {k : Hash} {s : State} (h : calmB k s = true) : Calm k s := by
+  constructor
+  · intro i vs ok ha hk
+    simp only [calmB, ha, Bool.or_eq_true, Bool.not_eq_eq_eq_not, Bool.not_true, beq_eq_false_iff_ne] at h
+    rcases h with h | h
+    · exact absurd hk h
+    · exact h
+  · intro cost rest ha
+    simp [calmB, ha] at h
 
 end RV.Cache
